@@ -151,6 +151,8 @@ def _cmp(op, a, b):
         else:
             if Mode.cur != "exact" and _near(a, b):
                 r = True
+            elif isinstance(a, float) and isinstance(b, float) and math.isnan(a) and math.isnan(b):
+                r = True
             else:
                 try:
                     r = bool(a == b)
@@ -192,6 +194,13 @@ class Rewriter(ast.NodeTransformer):
         self.generic_visit(n)
         if n.attr == "ghost":
             return ast.copy_location(ast.Attribute(value=n.value, attr="_verif_ghost", ctx=n.ctx), n)
+        return n
+
+    def visit_BinOp(self, n):
+        self.generic_visit(n)
+        if isinstance(n.op, ast.Div):
+            return ast.copy_location(ast.Call(func=ast.Name(id="__div", ctx=ast.Load()), args=[n.left, n.right],
+                                              keywords=[]), n)
         return n
 
     def visit_Compare(self, n):
@@ -319,12 +328,28 @@ class _Inf:
     pass
 
 
+def _div(a, b):
+    """total division with numpy float semantics (x/0 -> inf / nan), as the library's own arithmetic"""
+    a, b = _scalar(a), _scalar(b)
+    with np.errstate(all="ignore"):
+        return float(np.float64(a) / np.float64(b))
+
+
+class DivOnly(ast.NodeTransformer):
+    def visit_BinOp(self, n):
+        self.generic_visit(n)
+        if isinstance(n.op, ast.Div):
+            return ast.copy_location(ast.Call(func=ast.Name(id="__div", ctx=ast.Load()), args=[n.left, n.right],
+                                              keywords=[]), n)
+        return n
+
+
 BASE_NS = {
-    "__cmp": _cmp, "__deep_equal": deep_equal,
+    "__cmp": _cmp, "__deep_equal": deep_equal, "__div": _div,
     "first": _first, "size": _size, "count": _count, "count2": _count, "zeros": _zeros, "c_in": _c_in,
     "isinf": lambda x: isinstance(_scalar(x), float) and math.isinf(_scalar(x)),
     "inf": lambda: float("inf"),
-    "sqrt": lambda x: math.sqrt(x) if x >= 0 else float("nan"),
+    "sqrt": lambda x: math.sqrt(x) if _scalar(x) >= 0 else float("nan"),
     "log": lambda x: math.log(x) if x > 0 else float("nan"),
     "close": lambda a, b: _cmp("==", float(_scalar(a)), float(_scalar(b))) if Mode.cur != "exact" else _near(
         float(_scalar(a)), float(_scalar(b))) or _scalar(a) == _scalar(b),
@@ -339,6 +364,9 @@ BASE_NS = {
     "xval": lambda X, j: _coerce_stream(X)[0][int(j)],
     "bval": lambda X, i, j: _coerce_batch(X)[int(i)][int(j)],
     "seq_mean": _seq_mean, "seq_std": _seq_std,
+    "vsum": lambda xs: sum(_scalar(np.asarray(x)) for x in xs),
+    "asum": lambda xs, lo, hi: sum(_scalar(np.asarray(x)) for x in list(xs)[int(lo):int(hi)]),
+    "norm_cdf": lambda x: float(__import__("scipy.stats").stats.norm.cdf(x, 0, 1)),
     "max": max, "min": min, "len": len, "abs": abs, "range": range, "int": int, "all": all, "any": any,
     "float": float, "sum": sum, "round": round, "bool": bool, "list": list, "tuple": tuple, "isinstance": isinstance,
     "np": np,
@@ -362,13 +390,16 @@ class Monitors:
         self.tags = set(tags) if tags else None
         self.ns = dict(BASE_NS)
         for src in reg.spec_sources:
-            exec(compile(src, "<spec>", "exec"), self.ns)
+            tree = DivOnly().visit(ast.parse(src))
+            ast.fix_missing_locations(tree)
+            exec(compile(tree, "<spec>", "exec"), self.ns)
         self.compiled = {}
         self.evaluations = 0
         self.per_clause = {}
         self.failures = []
         self.raise_on_failure = True
         self.installed = []
+        self.depth = 0
 
     def wanted(self, tags):
         if self.tags is None:
@@ -478,7 +509,9 @@ class Monitors:
             return tuple(default), cl
 
         def wrapper(*args, **kwargs):
-            if getattr(wrapper, "_active", False):
+            if mon.depth > 0:
+                # nested call from inside a monitored method: class invariants need not hold mid-method; the callee
+                # is verified on its own (modularly / inlined) by the deductive tier
                 return f(*args, **kwargs)
             try:
                 ba = sig.bind(*args, **kwargs)
@@ -503,7 +536,7 @@ class Monitors:
                     old_env["__old_" + kname] = copy.deepcopy(v)
                 except Exception:
                     old_env["__old_" + kname] = v
-            wrapper._active = True
+            mon.depth += 1
             exc = None
             result = None
             try:
@@ -512,7 +545,7 @@ class Monitors:
                 except Exception as e:
                     exc = e
             finally:
-                wrapper._active = False
+                mon.depth -= 1
             post = dict(env)
             post.update(old_env)
             post["result"] = result
